@@ -229,15 +229,29 @@ def run_case(case):
                 outp = os.path.normpath(os.path.join(e['directory'], e['output']))
                 rel = os.path.relpath(outp, p.bld)
                 sid = m.producer.get('B:' + rel)
+                # a versioned shared library has three entries (link step + two symlink
+                # steps) and names the link step's output by its public (development-link)
+                # name: an entry belongs to the step of that chain whose command it carries
+                chain = []
+                c = sid
+                while c is not None:
+                    chain.append(c)
+                    c = m.producer.get(sorted(m.steps[c]['in'])[0]) \
+                        if m.steps[c]['kind'] == 'symlink' else None
+                env, cmds = parse_compdb_entry(e)
+                got = [norm_argv(c, backend) for c in cmds]
+                for c in chain:
+                    if c in recs[backend][0] and \
+                       norm_argv(recs[backend][0][c][0]['argv'], backend) in got:
+                        sid = c
+                        break
                 if sid is None or sid not in recs[backend][0]:
                     res.violate((backend, 'compdb-entry-without-step'),
                                 dict(wb, entry=e, step=sid))
                     continue
                 seen_outputs.add(sid)
                 rec = recs[backend][0][sid][0]
-                env, cmds = parse_compdb_entry(e)
                 want = norm_argv(rec['argv'], backend)
-                got = [norm_argv(c, backend) for c in cmds]
                 if want not in got:
                     res.violate((backend, 'compdb-argv-differs', m.steps[sid]['kind']),
                                 dict(wb, step=sid, compdb=got, ran=want))
@@ -278,7 +292,7 @@ def run_case(case):
         # (c) same rebuild sets after touching the same file
         rng = core.rng_for(0, 'c06touch', case['touch_seed'])
         cands = m.source_files() + [f for f in m.intermediate_files()
-                                    if m.steps[m.producer[f]]['kind'] not in ('compile', 'copy', 'pch')]
+                                    if m.steps[m.producer[f]]['kind'] not in ('compile', 'copy', 'pch', 'symlink')]
         for f in (rng.sample(cands, case['ntouch']) if len(cands) > case['ntouch'] else cands):
             sets = {}
             for backend, p in projs.items():
@@ -289,7 +303,7 @@ def run_case(case):
             if sets['make'] != sets['ninja']:
                 # symlink copies may legitimately differ (never required)
                 diff = sets['make'] ^ sets['ninja']
-                diff = {s for s in diff if not (m.steps.get(s, {}).get('kind') == 'copy')}
+                diff = {s for s in diff if m.steps.get(s, {}).get('kind') not in ('copy', 'symlink')}
                 if diff:
                     res.violate(('rebuild-sets-differ',),
                                 dict(wb, touched=f, only_make=sorted(sets['make'] - sets['ninja']),
